@@ -122,7 +122,7 @@ def main(argv=None):
     if code != 2 and a.tier == "thorough" and not a.no_selftest:
         try:
             from .selftest import run as selftest_run
-            st_code = selftest_run(prop, a.repo, a.evidence)
+            st_code = selftest_run(prop, a.repo, a.evidence, frozenset(f.key for f in (getattr(ctx, 'all_findings', None) or findings)))
             if st_code == 2:
                 code = 2 if code == 0 else code
         except ImportError:
